@@ -185,8 +185,13 @@ def execute(REC, bct, fname, R, cfg, rng, capture=None):
         X = np.asarray(res)
         zero = cfg['maxswap'] == 0
         newcells = (X != 0) & (Rin == 0)
-        REC.check('C11', fname, 'mask_respected', not bool(np.any(newcells & (np.asarray(B) != 0))),
-                  {'A': Rin, 'B': B, 'X': X, 'maxswap': cfg['maxswap']})
+        # the weights are the connections' identities: a masked cell that was occupied may be vacated, but a different
+        # nonzero value in it is a connection that a swap created there (with distinct weights nothing is hidden)
+        refilled = (X != 0) & (Rin != 0) & (X != Rin)
+        REC.check('C11', fname, 'mask_respected', not bool(np.any((newcells | refilled) & (np.asarray(B) != 0))),
+                  {'A': Rin, 'B': B, 'X': X, 'maxswap': cfg['maxswap']}, ('occupied_masked_cells',) if cfg.get('overlap') else ())
+        if cfg.get('overlap') and np.any((np.asarray(B) != 0) & (Rin != 0) & (X == 0)):
+            REC.tag('C11', 'mask_case_with_vacated_masked_cell')
         if np.any(newcells):
             REC.tag('C11', 'mask_case_with_new_cells')
     elif fname == 'randomizer_bin_und':
